@@ -218,10 +218,11 @@ def finalize_replica(rep, tr, cell):
             "ess": rep["untrimmed"]["ess"]}
 
 
-def bias_test(vals, alpha, a_coef):
-    """|mean| <= t*(alpha) s/sqrt(R) + a*s^2 ; returns (mean, sd, allowed, flagged)."""
+def bias_test(vals, alpha, a_coef, a_cap=float("inf")):
+    """|mean| <= t*(alpha) s/sqrt(R) + min(a*s^2, a_cap) ; returns (mean, sd, allowed, flagged).
+    The cap keeps a defect that inflates the spread itself from buying its own allowance."""
     v = np.asarray(vals, dtype=float)
     R = len(v)
     m, s = float(v.mean()), float(v.std(ddof=1))
-    allowed = float(stats.t.isf(alpha / 2, R - 1)) * s / math.sqrt(R) + a_coef * s * s
+    allowed = float(stats.t.isf(alpha / 2, R - 1)) * s / math.sqrt(R) + min(a_coef * s * s, a_cap)
     return m, s, allowed, abs(m) > allowed
